@@ -44,3 +44,45 @@ Proof.
   cbn [forallb] in Hq. apply andb_prop in Hq. destruct Hq as [Hp Hq]. unfold quiet in Hp.
   destruct (rd_raises p); [discriminate|]. destruct (rd_ends_loop p); [discriminate|]. destruct (rd_disconnect p); apply IH; assumption.
 Qed.
+
+(* read_phase_n is read_phase with a counter *)
+Theorem read_phase_n_fst : forall reads held, fst (read_phase_n held reads) = read_phase held reads.
+Proof.
+  induction reads as [|p t IH]; intro held; cbn [read_phase_n read_phase]; [reflexivity|].
+  destruct (rd_raises p); [reflexivity|]. destruct (rd_ends_loop p); [reflexivity|].
+  specialize (IH (if rd_disconnect p then None else held)).
+  destruct (read_phase_n (if rd_disconnect p then None else held) t) as [o n]. exact IH.
+Qed.
+
+(* how many packets are dispatched in a turn does not depend on whether a write error is being held back *)
+Theorem dispatch_count_independent_of_write_error : forall reads held held',
+  snd (read_phase_n held reads) = snd (read_phase_n held' reads).
+Proof.
+  induction reads as [|p t IH]; intros held held'; cbn [read_phase_n]; [reflexivity|].
+  destruct (rd_raises p); [reflexivity|]. destruct (rd_ends_loop p); [reflexivity|].
+  specialize (IH (if rd_disconnect p then None else held) (if rd_disconnect p then None else held')).
+  destruct (read_phase_n (if rd_disconnect p then None else held) t) as [o n].
+  destruct (read_phase_n (if rd_disconnect p then None else held') t) as [o' n']. cbn [snd] in *. congruence.
+Qed.
+
+(* ... and when nothing raises or ends the loop, every packet that was readable is dispatched *)
+Theorem all_dispatched_when_quiet : forall reads held, forallb quiet reads = true -> snd (read_phase_n held reads) = length reads.
+Proof.
+  induction reads as [|p t IH]; intros held Hq; cbn [read_phase_n length]; [reflexivity|].
+  cbn [forallb] in Hq. apply andb_prop in Hq. destruct Hq as [Hp Hq]. unfold quiet in Hp.
+  destruct (rd_raises p); [discriminate|]. destruct (rd_ends_loop p); [discriminate|].
+  specialize (IH (if rd_disconnect p then None else held) Hq).
+  destruct (read_phase_n (if rd_disconnect p then None else held) t) as [o n]. cbn [snd] in *. congruence.
+Qed.
+
+(* a held write error is never dropped silently: unless a disconnect packet is read in the turn, the turn ends by raising
+   (the held error, or the error of a read/reaction) - whatever else is read, and in particular when nothing more can be read *)
+Theorem held_error_not_dropped : forall reads e,
+  forallb (fun r => negb (rd_disconnect r)) reads = true -> exists e', read_phase (Some e) reads = TRaised e'.
+Proof.
+  induction reads as [|p t IH]; intros e Hd; cbn [read_phase].
+  - exists e. reflexivity.
+  - cbn [forallb] in Hd. apply andb_prop in Hd. destruct Hd as [Hp Hd]. destruct (rd_disconnect p); [discriminate|].
+    destruct (rd_raises p) as [e1|]; [exists e1; reflexivity|]. destruct (rd_ends_loop p); [exists e; reflexivity|].
+    apply IH; exact Hd.
+Qed.
